@@ -32,6 +32,10 @@ def common_doc(r, depth=3):
         k = r.random()
         if k < 0.05:
             return ""
+        if k < 0.10:
+            # text beyond ASCII, incl. forms that Unicode normalisation would change (decomposed accents, compatibility
+            # singletons): every format stores text verbatim
+            return r.choice(("caf\u00e9", "Zoe\u0308", "\u212b", "\u2126m", "\u65e5\u672c", "e\u0301e\u0301", "\U0001F600", "a\u00a0b"))
         if k < 0.35:
             return r.choice(ALNUM)
         if k < 0.65:
@@ -67,7 +71,9 @@ def write(fmt, data) -> bytes:
     if fmt == "json":
         return json.dumps(data).encode()
     if fmt == "json5":
-        return ("// same data\n" + json.dumps(data, indent=2) + "\n").encode()
+        # raw UTF-8, not \uXXXX escapes: the json5 library reads an escaped surrogate pair as two lone surrogates (the
+        # third-party root cause of known finding F23, listed under C12; it would show here in the same way)
+        return ("// same data\n" + json.dumps(data, indent=2, ensure_ascii=False) + "\n").encode("utf-8")
     if fmt == "yaml":
         return yaml.safe_dump(data, default_flow_style=False).encode()
     return plistlib.dumps(data)
